@@ -74,7 +74,10 @@ func init() {
 		Name: "trend.AlligatorStrategy",
 		Cfgs: func(t bool) [][]float64 {
 			h := Hi(t, 3, 4)
-			return Box([]int{1, 1, 1}, []int{h, h, h}, func(v []int) bool { return v[0] >= v[1] && v[1] >= v[2] })
+			// the documented roles are jaw slowest, lips fastest (13, 8, 5); the code synchronises on the largest of the three
+			// whichever it is, so a few configurations outside the roles are explored as well
+			r := Box([]int{1, 1, 1}, []int{h, h, h}, func(v []int) bool { return v[0] >= v[1] && v[1] >= v[2] })
+			return append(r, []float64{1, 2, 3}, []float64{2, 1, 3}, []float64{2, 3, 1}, []float64{1, 3, 2})
 		},
 		New: func(c []float64) strategy.Strategy {
 			return strend.NewAlligatorStrategyWith(I(c, 0), I(c, 1), I(c, 2))
@@ -255,8 +258,9 @@ func init() {
 	RegStrat(&Strat{
 		Name: "trend.DemaStrategy",
 		Cfgs: func(t bool) [][]float64 {
+			// the two DEMAs are padded to their own idle periods, so either may be the slower one
 			h := Hi(t, 3, 4)
-			return Box([]int{1, 1}, []int{h, h}, func(v []int) bool { return v[0] <= v[1] })
+			return Box([]int{1, 1}, []int{h, h}, nil)
 		},
 		New: func(c []float64) strategy.Strategy {
 			s := strend.NewDemaStrategy()
@@ -286,7 +290,7 @@ func init() {
 	// ---------------------------------------------------------------- Envelope
 	// cfg = [maKind (0 = SMA, 1 = EMA), period, percentage] as in trend.Envelope
 	RegStrat(&Strat{
-		Name: "trend.EnvelopeStrategy",
+		Name: "trend.EnvelopeStrategy", Periods: []int{1},
 		Cfgs: func(t bool) [][]float64 {
 			var r [][]float64
 			for kind := 0; kind <= 1; kind++ {
